@@ -137,12 +137,30 @@ ADD7 = {
  "C18": " Winbox chunk sequences followed by further bytes are rejected (nothing behind the last chunk).",
 }
 
+ADD8 = {
+ "C01": " Handlers.Compile, evaluated on chains of 0..3 handlers, runs them in the configured order and ends in the given next (the tee branch's chain); the pooled buffer of a handed-off connection is not recycled.",
+ "C02": " A new connection's matching buffer is proven empty (routes are decided on the bytes received so far, not on what a recycled slice still holds); compiled handler chains keep the configured order.",
+ "C03": " The relay's shutdown loop is evaluated with TCP, UDP, unix stream and unix datagram upstreams (a stream that offers CloseWrite is half-closed - also a *net.UnixConn, which is a packet connection too -, a datagram socket is closed); the connection a tee hands to its concurrently running branch is wrapped in a type that offers neither CloseWrite nor NetConn().",
+ "C04": " Methods used only as bound method values (parse-after-decrypt callbacks) are part of the per-connection code, with the length bounds that hold where the method value is made; encoding/binary's fixed-width accessors are index obligations; a pointer stored in a field straight from a fallible call is published with its error; lazily created pointer fields are dereferenced only behind a nil test or a fresh assignment on every path (contradiction rule).",
+ "C05": " At the buffer limit the http matcher still answers need-more (the router, not a matcher's 'no', ends matching that exhausts the buffer).",
+ "C06": " What prefetch appends is a copy of what it read and no view of a pooled buffer is retained; below the limit prefetch performs exactly one read whatever the fill.",
+ "C07": " The record gate accepts every record-layer version (as crypto/tls does for the first record); the ClientHello parser is evaluated on 15 concrete hellos with a model of cryptobyte.String.",
+ "C08": " No append in per-connection code appends to a slice taken from the shared module instance (append writes into the spare capacity all connections share).",
+ "C09": " The association's lazily created timers are dereferenced only behind a nil test or a fresh assignment on every path; setting the deadline of a virtual connection never blocks and arms the timer that wakes a waiting Read.",
+ "C10": " Every failed dial is remembered for fail_duration, also for a peer that is already out of rotation.",
+ "C11": " tryAgain is given a reading of the clock taken before the first selection (each time.Now() is a value of its own); every path through the active probe dials the peer and reaches a setHealthy call.",
+ "C14": " Two provisioned objects that the matcher configures differently (the OpenVPN auth and crypt keys) are separate objects.",
+ "C15": " After Provision the module's Validate (where it has one) is evaluated as well; the private_ranges shortcut of the proxy_protocol handler is expanded from the dependency's source and must provision.",
+ "C16": " Credentials kept in files: placeholders are resolved by the global replacer, not one made WithoutFile().",
+ "C17": " A datagram waits for a slow (throttled) reader: the server loop hands it to the association's queue with a send that is not abandoned when the queue is full.",
+}
+
 checks = []
 for p in props:
     if p["id"] not in CLAIMS:
         continue
     tech, text, ref = CLAIMS[p["id"]]
-    text = text + ADD6.get(p["id"], "") + ADD7.get(p["id"], "")
+    text = text + ADD6.get(p["id"], "") + ADD7.get(p["id"], "") + ADD8.get(p["id"], "")
     checks.append({
         "property_id": p["id"],
         "quick_cmd": "./run.sh %s quick" % p["id"],
